@@ -360,7 +360,11 @@ def classify_py(di, v, limits=True, stored=True):
             return 'reject'
         if lo <= q <= hi:
             return 'either' if k == 'bool' else 'accept'
-        if lo - 1.000001 <= q <= hi + 1.000001:
+        # documented tolerance: "silently clamp when outside by not more than scale", measured from the
+        # real limits (which need not lie on the grid) - the band may reach beyond lo-1 / hi+1
+        blo = min(lo, di.get('_fmin', lo * sc) / sc) - 1.000001
+        bhi = max(hi, di.get('_fmax', hi * sc) / sc) + 1.000001
+        if blo <= q <= bhi:
             return 'either'
         return 'reject'
     if t in ('bool', 'enum', 'string'):
@@ -416,7 +420,7 @@ def same_py(di, v, e, limits=True, prev=None):
             return True     # nearest grid point (documented rounding of a driver float)
         if limits:
             lo, hi = scaled_limits(di)
-            return e in (lo, hi) and abs(e - q) <= 1.000001 + abs(q) * 1e-15
+            return e in (lo, hi) and abs(e - q) <= 1.500001 + abs(q) * 1e-15
         return False
     if t in ('bool', 'enum', 'string'):
         return same_wire(di, v, e)
